@@ -1,3 +1,90 @@
-import Rustemo.Model.LR
+import Rustemo.Proofs.LexOk
+import Rustemo.Proofs.CertSound
+import Rustemo.Props.Example
+/-!
+# C13 — spans and positions faithfully locate every tree node in the input
+
+`posAfter` models `str::position_after` (input.rs), `LR.parse` models `LRParser::parse`
+(`Model/LR.lean`; ties: correspondence on every node's span, value and layout).
+`Tree.SpanOk input t` is the property text: a token's value is the slice of the input at its span and
+both ends are the positions `posOf input offset`; a nonterminal's span runs from the start of its first
+child to the end of its last child; an empty nonterminal has a zero-width span.
+`Pos.spec` is "line = 1 + newlines before the offset, column = bytes since the line start".
+
+Not proved here (decided by oracle + correspondence only): that token spans are ordered and an empty
+nonterminal lies between the neighbouring tokens; the GLR half (see known finding F20).
+-/
 namespace Rustemo.Props.C13
+open Rustemo
+
+/-- `position_after` is additive over concatenation, from any starting position. -/
+theorem C13_position_after_append (s u : List Nat) (p : Pos) :
+    posAfter (s ++ u) p = posAfter u (posAfter s p) := posAfter_append s u p
+
+/-- The position the runtime computes for a byte offset is the one the property prescribes:
+    line = 1 + number of newlines before it, column = distance in bytes from the line start. -/
+theorem C13_position_spec (input : List Nat) (off : Nat) (h : off ≤ input.length) :
+    posAfter (input.take off) Pos.start = Pos.spec input off := posOf_spec input off h
+
+theorem noShiftStop_sound (t : Table) (h : Cert.noShiftStop t = true) : NoShiftStop t := by
+  intro s s' hm
+  obtain ⟨st, hst, hm'⟩ := mem_cell hm
+  have := forStates_spec h hst
+  rw [List.all_eq_true] at this
+  have := this _ hm'
+  simp at this
+
+/-- **LR spans.** For the default string lexer with any recognizers that stay inside the input
+    (`RecogOk`), whitespace skipping or a Layout rule, partial parsing on or off, every input: the tree
+    returned by the parser satisfies the span specification at every node. -/
+theorem C13_lr_spans (env : Env) (hc : env.custom = none) (hr : RecogOk env)
+    (hcert : Cert.noShiftStop env.t = true) (partialParse : Bool) (fuel : Nat) (ctx : Ctx)
+    (r : ParseResult) (h : parse env partialParse fuel = (ctx, .ok r)) :
+    r.tree.SpanOk env.input :=
+  parse_spans env hc hr (noShiftStop_sound _ hcert) partialParse fuel ctx r h
+
+/-- what `SpanOk` says about a token -/
+theorem C13_token_value_is_slice (input : List Nat) (k : Nat) (sp : Span) (v : Slice) (l : Option Slice)
+    (h : (Tree.leaf k sp v l).SpanOk input) :
+    sp.s = Pos.spec input v.1 ∧ sp.e = Pos.spec input (v.1 + v.2) ∧ v.1 + v.2 ≤ input.length := by
+  obtain ⟨⟨h1, h1'⟩, ⟨h2, h2'⟩, h3, h4⟩ := h
+  rw [h3] at h1 h1'
+  rw [h4] at h2 h2'
+  exact ⟨by rw [h1, posOf_spec _ _ (by omega)], by rw [h2, posOf_spec _ _ h2'], h2'⟩
+
+/-- what `SpanOk` says about a nonterminal -/
+theorem C13_nonterminal_span (input : List Nat) (p : Nat) (sp : Span) (l : Option Slice) (cs : TreeList)
+    (h : (Tree.node p sp l cs).SpanOk input) :
+    (∀ f la, cs.toList.head? = some f → cs.toList.getLast? = some la →
+        sp.s = f.span.s ∧ sp.e = la.span.e) ∧
+    (cs.toList = [] → sp.s = sp.e) := h.2.2.2
+
+/-- non-vacuity: the hypotheses hold for a concrete run (`S: 'a' S | EMPTY` on "a a") -/
+example : Example.env.custom = none ∧ Cert.noShiftStop Example.env.t = true ∧
+    Example.isOk (parse Example.env false 100).2 = true := by decide
+
+example : RecogOk Example.env := by
+  intro k p l h
+  unfold Example.env Example.recog at h
+  simp only at h
+  split at h
+  · split at h
+    · injection h with h; subst h
+      rename_i h1 h2
+      have : p < Example.input.length := by
+        rcases Nat.lt_or_ge p Example.input.length with h | h
+        · exact h
+        · simp [List.getElem?_eq_none h] at h2
+      show p + 1 ≤ Example.input.length
+      omega
+    · simp at h
+  · split at h
+    · split at h
+      · injection h with h; subst h
+        rename_i h1 h2 h3
+        show p + 0 ≤ Example.input.length
+        omega
+      · simp at h
+    · simp at h
+
 end Rustemo.Props.C13
